@@ -353,11 +353,9 @@ func codecAll(t *testing.T, run *vh.Run, r *vh.Rand, env vh.Env) {
 			n = append(n, genNEntry(r, j, true))
 			s = append(s, genSil(r, j, vh.Pick(r, []string{"wire", "legacy"}), true))
 		}
-		for _, e := range n {
-			if len(e.Firing) > 20 {
-				n = n[:1]
-				n[0].Firing = n[0].Firing[:3]
-				break
+		for i := range n { // keep the mutated snapshots small
+			if len(n[i].Firing) > 20 {
+				n[i].Firing = n[i].Firing[:3]
 			}
 		}
 		bn := marshalN(n)
